@@ -392,6 +392,8 @@ class Exprs:
             f = f.parent
         if name in self.helpers:
             return VBuiltin("helper:" + name)
+        if name in self.engine.global_folds:
+            return VBuiltin("gfold:" + name)
         if name in self.BUILTIN_NAMES:
             return VBuiltin(name)
         raise Unsupported(f"unknown name {name} (line {getattr(node, 'lineno', '?')})")
@@ -685,6 +687,10 @@ class Exprs:
             raise Unsupported("% formatting")
         if isinstance(a, VFloat) or isinstance(b, VFloat):
             return VFloat()
+        if isinstance(a, VExt):
+            h = self.engine.ext_binops.get((a.kind.split(".")[-1], type(op).__name__))
+            if h is not None:
+                return h(self, a, b, node, fr)
         if isinstance(a, VBool) and isinstance(b, VBool):
             if isinstance(op, ast.BitXor):
                 return VBool(z3.Xor(a.t, b.t))
@@ -879,6 +885,7 @@ class Exprs:
                 ch = base.py[ic.as_long()]
                 return VInt(ord(ch)) if base.is_bytes else self.pystr(ch)
             j = z3.If(i < 0, i + ln, i)
+            self.register_index(i)
             el = base.t[j]
             if base.is_bytes:
                 self.path.add_fact(z3.And(el >= 0, el <= 255))
@@ -896,10 +903,22 @@ class Exprs:
         if base.is_concrete() and z3.is_int_value(ic):
             return base.tail[ic.as_long()]
         j = z3.simplify(z3.If(i < 0, i + ln, i))
+        self.register_index(i)
         if base.is_concrete():
+            res0: Optional[V] = None
+            if base.tail and (fr.in_spec or self.path.temps):
+                res0 = base.tail[-1]
+                for k in reversed(range(len(base.tail) - 1)):
+                    if res0 is None:
+                        break
+                    res0 = self.ite_merge(j == k, base.tail[k], res0)
+                if res0 is not None:
+                    return res0
             for k in range(len(base.tail)):
                 if self.path.branch(j == k):
                     return base.tail[k]
+            if fr.in_spec or self.path.temps:
+                return VOpaque("undefined.index")
             raise PathEnd("index")
         assert base.base_get is not None
         if not base.tail:
